@@ -743,9 +743,9 @@ void TasgridWrapper::refineGrid(){
             scale = readMatrix(valsfilename);
             iassert(scale.getNumStrips() == grid.getNumPoints(), "the number of weights must match the number of points");
             if (ref_output == -1)
-                iassert(scale.getStride() == 1, "the number of weights must match the number of outputs");
+                iassert(scale.getStride() == (size_t) grid.getNumOutputs(), "the number of weights must match the number of outputs");
             if (ref_output > -1)
-                iassert(scale.getStride() == (size_t) grid.getNumOutputs(), "there must be one weight per output");
+                iassert(scale.getStride() == 1, "there must be one weight per point");
         }
         if (not pass_flag) return;
         if (grid.isGlobal() and ref_output == -1) ref_output = 0;
